@@ -812,7 +812,14 @@ func (c *Ctx) rangeInit(st *State, x *ssa.Range) Value {
 		if mo.Abstract {
 			unsupported("range over abstract map (needs a contract-level treatment)")
 		}
-		c.Assumed["range over a concrete map evaluated in insertion order (order-independence not proved by this evaluation)"] = true
+		c.Assumed["range over a concrete map evaluated in insertion order and in reverse insertion order (other orders not evaluated)"] = true
+		if c.MapReverse {
+			rev := &MapObj{}
+			for i := len(mo.Entries) - 1; i >= 0; i-- {
+				rev.Entries = append(rev.Entries, mo.Entries[i])
+			}
+			mo = rev
+		}
 		return &RangeIter{Map: mo, MapT: under(x.X.Type()).(*types.Map)}
 	}
 	unsupported("range over %T", v)
